@@ -147,6 +147,16 @@ func (m *AppPlacementManager) PlaceApplication(app *objects.Application) error {
 				zap.String("application", app.ApplicationID))
 			break
 		}
+		// The recovery queue must never be used for an application that is not forced: a rule that returns
+		// it, via a provided queue name or a tag value, did not match.
+		if common.IsRecoveryQueue(queueName) && !app.IsCreateForced() {
+			log.Log(log.SchedApplication).Debug("Rule returned recovery queue for a non forced application",
+				zap.String("ruleName", checkRule.getName()),
+				zap.String("application", app.ApplicationID))
+			// reset the queue name for the last rule in the chain
+			queueName = ""
+			continue
+		}
 		// queueName returned make sure ACL allows access and set the queueName in the app
 		queue := m.queueFn(queueName)
 		// walk up the tree if the queue does not exist
